@@ -127,6 +127,19 @@ def c07_3(ctx):
     ctx.check(not refusals, "reader-refuses-nothing", ctx.where(pf, refusals[0].node) if refusals else ctx.where(pf),
               "parse_satoshi_int refuses decoded values under `%s`; stream_satoshi_int writes every non-negative integer below 2^64, so what is written no longer reads back" % (str(refusals[0].cond)[:100] if refusals else ""),
               sample={"reader": "parse_satoshi_int", "refusing_exits": 0})
+    # ... and neither does the generic array codec the readers may go through (parse_struct("[S]"): a count, then the items): it
+    # has no refusal by the COUNT it read -- whatever number of items was written is read back
+    ps = ctx.func("pycoin/serialize/streamer.py", "Streamer.parse_struct")
+    wps = sym.walk(ctx, ps)
+    bycount = []
+    for e in wps.exits:
+        if e.kind == "raise" and e.cond not in (True, False):
+            for o in gi.f_opaques(e.cond):
+                if isinstance(o, str) and "array_count_parse_f(" in o and re.search(r"(?<![\w.])\d+(?![\w.])", o.replace("array_count_parse_f(", "")) and sym.entails(e.cond, ("op", o)):
+                    bycount.append((e, o))
+    ctx.check(not bycount, "array-reader-refuses-no-count", ctx.where(ps, bycount[0][0].node) if bycount else ctx.where(ps),
+              "Streamer.parse_struct refuses an array by its count (`%s`); the writers put no limit on the number of items (a witness stack, a vector of transactions), so what is written no longer reads back" % (bycount[0][1][:80] if bycount else ""),
+              sample={"reader": "Streamer.parse_struct", "refusals_by_count": 0})
     _refcheck(ctx, SSTR, "stream_satoshi_string", "ss_stream", "var-string-writer")
     # any function that computes the SIZE of a compact-size integer (answers 1 / 3 / 5 / 9 by the value) uses the writer's own
     # partition: 0..252, 253..65535, 65536..2^32-1, the rest
